@@ -2088,7 +2088,7 @@ var envStubs = map[string]bool{
 	"strconv.Itoa": true, "strconv.FormatInt": true, "strconv.Atoi": true, "strconv.ParseInt": true,
 	"(net/url.Values).Set": true, "(net/url.Values).Encode": true, "(*net/url.URL).String": true, "(*net/url.URL).Hostname": true, "(*net/url.URL).Port": true,
 	"github.com/jech/storrent/httpclient.Get": true, "net/netip.ParseAddr": true, "net.JoinHostPort": true,
-	"hash/fnv.New64a": true, "fmt.Sprintf": true, "os.Getuid": true, "os.Getgid": true,
+	"encoding/hex.EncodeToString": true, "hash/fnv.New64a": true, "fmt.Sprintf": true, "os.Getuid": true, "os.Getgid": true,
 	"(*net/url.URL).Query": true, "(net/url.Values).Get": true, "net/url.PathEscape": true,
 }
 
